@@ -56,6 +56,10 @@ CLASSES: List[Tuple[int, str, List[str], str, dict]] = [
     (49, "builtins", ["range"], "R", {"real": range}),
     (53, "builtins", ["frozenset"], "R", {"real": frozenset}),
     (43, "c18w", ["RegPoint"], "R", {}),
+    # registration HISTORIES (set up in world()): 70 is registered only after a first, refused to_json; 72 is registered, used,
+    # then registered again with another representation.  Afterwards both are ordinary registered types of every generated value.
+    (70, "c18w", ["LateReg"], "R", {}),
+    (72, "c18w", ["ReReg"], "R", {}),
     (45, "c18w", ["RegBase"], "R", {}),                             # harness pair in a subclass relationship,
     (46, "c18w", ["RegDerived"], "R", {"base": 45}),                # registered base first, each with its own (de)serialiser
     (50, "c18w", ["Outer"], "P", {}),
@@ -168,6 +172,27 @@ def world() -> Dict[str, Any]:
     RD.__init__ = lambda self, x=0, y=0: (setattr(self, "x", x), setattr(self, "y", y)) and None
     register(RB, lambda o: [o.x], lambda v: RB(v[0]))                      # base first ...
     register(RD, lambda o: [o.x, o.y], lambda v: RD(v[0], v[1]))           # ... then the derived type
+    # --- history 1: use before registration (refused), then register, then use
+    history = {}
+    LR, RR = cls[70], cls[72]
+    for K in (LR, RR):
+        K.__init__ = lambda self, x=0, y=0: (setattr(self, "x", x), setattr(self, "y", y)) and None
+        K.__eq__ = lambda self, o: type(o) is type(self) and vars(self) == vars(o)
+        K.__hash__ = None
+    try:
+        to_json([LR(1, 2)])
+        history["late:first_attempt"] = "returned"
+    except Exception as e:  # noqa
+        history["late:first_attempt"] = type(e).__name__
+    register(LR, lambda o: [o.x, o.y], lambda v: LR(v[0], v[1]))
+    # --- history 2: register, use, register again with another representation
+    reg.register(RR, lambda o: {TAG: get_full_class_name(type(o)), "old": [o.y, o.x]}, lambda data, **kw: RR(data["old"][1], data["old"][0]))
+    try:
+        r0 = from_json(json.loads(json.dumps(to_json([RR(3, 4)]))))
+        history["rereg:first_round_trip"] = "ok" if r0 == [RR(3, 4)] else "wrong value"
+    except Exception as e:  # noqa
+        history["rereg:first_round_trip"] = type(e).__name__
+    register(RR, lambda o: [o.x, o.y], lambda v: RR(v[0], v[1]))
     register(complex, lambda o: [int(o.real), int(o.imag)], lambda v: complex(v[0], v[1]))
     register(bytes, lambda o: list(o), lambda v: bytes(v))
     register(range, lambda o: [o.start, o.stop, o.step], lambda v: range(v[0], v[1], v[2]))
@@ -175,7 +200,7 @@ def world() -> Dict[str, Any]:
     register(datetime.date, lambda o: [o.year, o.month, o.day], lambda v: datetime.date(v[0], v[1], v[2]))   # base first
     register(datetime.datetime, lambda o: o.isoformat(), datetime.datetime.fromisoformat)
     register(fractions.Fraction, lambda o: [o.numerator, o.denominator], lambda v: fractions.Fraction(v[0], v[1]))
-    _WORLD.update(cls=cls, cid={id(c): k for k, c in cls.items()})
+    _WORLD.update(cls=cls, cid={id(c): k for k, c in cls.items()}, history=history)
     return _WORLD
 
 
@@ -278,6 +303,8 @@ def build(d):
         return frozenset(own)
     if cid == 44:
         return datetime.date(own[0], own[1], own[2])
+    if cid in (70, 72):
+        return c(own[0], own[1])
     if cid == 45:
         return c(own[0])
     if cid == 46:
@@ -339,6 +366,8 @@ def enc(r):
         return [6, cid, enc_jv(sorted(r)), []]
     if cid == 44:
         return [6, cid, enc_jv([r.year, r.month, r.day]), []]
+    if cid in (70, 72):
+        return [6, cid, enc_jv([r.x, r.y]), []]
     if cid == 45:
         return [6, cid, enc_jv([r.x]), []]
     if cid == 46:
@@ -457,6 +486,8 @@ def gen_reg(rng) -> list:
         return ["o", 53, sorted({rng.randint(-9, 9) for _ in range(rng.randint(0, 4))}), []]
     if cid == 44:
         return ["o", 44, rng.choice(DAYS), []]
+    if cid in (70, 72):
+        return ["o", cid, [rng.randint(-9, 9), rng.randint(-9, 9)], []]
     if cid == 45:
         return ["o", 45, [rng.randint(-9, 9)], []]
     if cid == 46:
@@ -548,6 +579,7 @@ def fixed_cases() -> List[list]:
     out += [["o", 47, [1, -2], []], ["o", 47, [0, 0], []], ["o", 48, [], []], ["o", 48, [0, 255, 10], []], ["o", 49, [0, 5, 1], []],
             ["o", 49, [3, -7, -2], []], ["o", 53, [], []], ["o", 53, [-1, 2, 7], []],
             ["l", [["o", 47, [3, 4], []], ["l", [["o", 48, [1], []]]], ["o", 13, "k", [["o", 49, [1, 9, 2], []], ["o", 53, [5], []]]]]]]
+    out += [["o", 70, [1, 2], []], ["o", 72, [3, 4], []], ["l", [["o", 70, [5, 6], []], ["o", 13, 0, [["o", 72, [7, 8], []], ["o", 70, [0, 0], []]]]]]]
     out += [["o", 44, d, []] for d in DAYS] + [["o", 45, [3], []], ["o", 46, [3, 4], []]]
     out.append(["l", [["o", 44, DAYS[0], []], ["o", 41, DATES[1], []], ["o", 45, [1], []], ["o", 46, [1, 2], []], ["o", 10, 0, [["o", 41, DATES[0], []], ["o", 46, [5, 6], []]]]]])
     # a chain through every class, lists in between
@@ -645,7 +677,7 @@ def run(tier: str, seed: int, replay=None) -> int:
                   "path (a module 'm.Outer' next to class Outer of module m would be imported in place of the class)",
                   "tuples, sets, dicts and NaN are outside the statement's value grammar and are not generated"]
     rep.rule = ("fixed edge list (every leaf kind incl. 2**70, +-inf, -0.0, lone surrogates, NUL, empty and 4-deep lists, every class of 3 subclass chains "
-                "of depth 1-4 in both styles of extending super().to_json() (copy / in-place), 11 registered third-party types (4 of them living in module builtins: complex, bytes, range, frozenset) incl. two base/derived "
+                "of depth 1-4 in both styles of extending super().to_json() (copy / in-place), 13 registered third-party types (4 living in module builtins; one registered only after a first refused to_json, one registered twice with different representations -- registration histories run once per process in world()) incl. two base/derived "
                 "pairs registered base-first, 2-4 different instances of one class as siblings / kids / parent-child in every 5th random value) + seeded grammar-directed random values (list depth <= 4, object depth <= 4, ~4% with a "
                 "function-local serialiser class = known-finding class K_local; classes nested in classes are ordinary members of the class pool); thorough adds all values of <= 4 nodes over a 7-leaf alphabet; "
                 "non-trivial = contains at least one list or object; distinct = distinct value")
@@ -720,6 +752,11 @@ def run(tier: str, seed: int, replay=None) -> int:
             continue
         bad.append((d, im, code))
     rep.extra["distribution"] = dist
+    rep.extra["registration_histories"] = world().get("history", {})
+    if world().get("history", {}).get("late:first_attempt") != "ClassNotSerializableError":
+        rep.note(f"history: to_json of a not-yet-registered type gave {world()['history'].get('late:first_attempt')} (expected ClassNotSerializableError)")
+    if world().get("history", {}).get("rereg:first_round_trip") != "ok":
+        rep.note(f"history: round trip under the first registration of ReReg gave {world()['history'].get('rereg:first_round_trip')}")
     rep.extra["known_finding_instances"] = kf_instances
     rep.samples = [{"case": d, "impl_outcome_kind": im[0]} for (_, d), im in list(zip(items, impls))[:: max(1, len(items) // 8)]][:8]
 
